@@ -57,6 +57,29 @@ CLAIMED = {
        "thread drop its Receiver, process::exit. Parser non-termination is C14's subject, not modelled here.",
   technique="Lean 4 progress + termination-measure proofs over the transition system, deadlock witness by decide, fault-injection trace validation",
   design="6.C07"),
+ "C05": dict(
+  text=("Proof: record-level round-trip theorems for all result maps: the BRDA records output_lcov writes (one per "
+        "slot, numbered from 0) re-imported in any order rebuild every branch vector; the DA records rebuild the "
+        "line map exactly (full 64-bit counts); iterating an observable-preserving round trip k+1 times equals one "
+        "(induction on k). Named _partial because the byte layer of the writer (decimal printing, FN/FNDA lines) is "
+        "not yet proved but tied: in-process parse_lcov(output_lcov(rs)) = rs on generated sets incl. 2^64-1 counts "
+        "and non-ASCII names, second export = first as record sets incl. summary lines, the Lean byte machine reads "
+        "the written bytes to the same result, and CLI chains r1 -> r2 -> r3 with -s/-p/--ignore/--keep-only/--filter."),
+  note=COMMON_NOTE + "Modelled, not verified: output_lcov's byte layer (checked through the independent report decoder "
+       "and the C04 byte machine); rewrite_paths idempotence is exercised through the CLI chains only (C11 models it).",
+  technique="Lean 4 record-level round-trip proofs + differential round trip on the implementation (in-process and CLI chains)",
+  design="6.C05"),
+ "C06": dict(
+  text=("Proof: for every shard tree (any partition, any nesting depth) whose inner nodes aggregate (C01 merge) and pass "
+        "the result through any observable-preserving round trip, the result has the same observables as the direct "
+        "aggregation of any permutation/grouping of the same inputs (C06_sharding, from merge congruence and "
+        "C01_grouping_invariant). The round-trip hypothesis is what C05 establishes for lcov. Tie: CLI shard trees of "
+        "depth 1-3 over 2-8 .info/.xml inputs against the single run, with and without --branch, plus the direct "
+        "report against the independent aggregate."),
+  note=COMMON_NOTE + "The round-trip hypothesis is discharged by C05 at record level and checked at byte level. Known "
+       "finding C06-jacoco-branches-without-branch-flag.",
+  technique="Lean 4 proof by tree induction over the C01 algebra + CLI differential oracle (sharded vs direct)",
+  design="6.C06"),
 }
 
 PENDING_REASON = "not claimed in this revision: model and check still being built (see DESIGN.md section 10)"
